@@ -101,7 +101,8 @@ def _is_type_lookup(t: Term) -> bool:
 def comments_rules(prog, chk, pid):
     P = lambda s: "%s.%s" % (pid, s)
     fi = prog.method(BF3 + ".Bf3File", "derive_comments_from_config")
-    ex = Exec(prog, policy=lambda e, f, d: False)
+    # private helper methods of the class (a shared "set or remove one comment" step, say) are interpreted as part of the derivation
+    ex = Exec(prog, policy=lambda e, f, d: f.cls is fi.cls and f.name.startswith("_") and not f.name.startswith("__") and f.name != "_get_config_ndx" and d < 3)
     res = ex.run(fi)
     where = "%s:%d" % (fi.file, fi.lineno)
     ev = res.events
@@ -133,6 +134,7 @@ def comments_rules(prog, chk, pid):
             fs = [f for f in s.ctx if f[0] in ("if", "loop", "try", "tryelse", "except")]
             fp = [f for f in p.ctx if f[0] in ("if", "loop", "try", "tryelse", "except")]
             comp = False
+            none_test = None
             if len(fs) == 1 and len(fp) == 1:
                 a, b = fs[0], fp[0]
                 if a[0] == "tryelse" and b[0] == "except" and a[1] == b[1]:
@@ -141,19 +143,37 @@ def comments_rules(prog, chk, pid):
                     comp = comp and len(b[3]) == 1 and b[3][0].endswith("NameError")
                 if a[0] == "if" and b[0] == "if" and a[1] is b[1] and a[2] != b[2]:
                     comp = True
+                    r_ = rel(a[1], True)
+                    if r_[0] == "rel" and r_[1] in ("Is", "IsNot") and (r_[2] is NONE or r_[3] is NONE):
+                        none_test = unsnap(r_[3] if r_[2] is NONE else r_[2])
             ok = comp
             why = "store and removal of %r are not on complementary paths (else/except of one try, or the two arms of one test)" % k
             if ok:
                 v = unsnap(s.d["value"])
+                wrapped = v.op == "call" and isinstance(v.args[0], Term) and v.args[0].op == "builtin" and v.args[0].args[0] == "str"
+                inner = unsnap(v.args[1][0]) if wrapped else v
+                from_handler = None
+                if none_test is not None and inner is none_test and inner.op == "phi":
+                    # `x = derived-or-None` followed by `if x is None: remove else: store str(x)`: the stored value is the non-None arm,
+                    # and the None arm has to be the "nothing to derive" outcome (the maker's documented error / the test on the configuration)
+                    arms_ = [unsnap(inner.args[1]), unsnap(inner.args[2])]
+                    nn = [x for x in arms_ if not (is_const(x) and cval(x) is None)]
+                    if len(nn) == 1:
+                        from_handler = inner.args[0]
+                        inner = nn[0]
                 if maker:
-                    okv = v.op == "call" and isinstance(v.args[0], Term) and v.args[0].op == "builtin" and v.args[0].args[0] == "str" and is_call_named(unsnap(v.args[1][0]), maker)
+                    okv = wrapped and is_call_named(inner, maker)
                     if okv:
-                        mk_call = unsnap(v.args[1][0])
-                        a = [x for x in mk_call.args[1] if unsnap(x).op != "class"]
+                        a = [x for x in inner.args[1] if unsnap(x).op != "class"]
                         okv = len(a) == 1 and unsnap(a[0]).op == "param" and unsnap(a[0]).args[0] == "config"
+                    if okv and from_handler is not None:
+                        # the None outcome must come from the handler of the maker's NameError only
+                        fh = unsnap(from_handler)
+                        tries = [t_ for t_ in ev if t_.kind == "try" and fh.op == "sym" and fh.args[0] == "exc" and t_.d["tid"] == fh.args[1]]
+                        okv = len(tries) == 1 and len(tries[0].d["handlers"]) == 1 and len(tries[0].d["handlers"][0]) == 1 and str(tries[0].d["handlers"][0][0]).endswith("NameError")
                 else:
-                    okv = is_const(v) and cval(v) == "Yes"
-                    c = fs[0][1]
+                    okv = is_const(inner) and cval(inner) == "Yes"
+                    c = from_handler if from_handler is not None else fs[0][1]
                     okv = okv and any(unsnap(t).op == "param" and unsnap(t).args[0] == "config" for t in subterms(c)) and any(is_const(t) and cval(t) == (0x0620, 0x20) for t in subterms(c))
                 ok = okv
                 why = "value stored under %r does not derive from the current configuration argument only" % k
